@@ -1105,6 +1105,18 @@ class Interp:
         return self.out, panic
 
 
+I32_WRAP_SIG = "an int beyond the i32 range is printed modulo 2^32 (a Rust local without a type anchor fell back to i32)"
+
+
+def _is_i32_wrap(expected, got):
+    """True iff `got` is `expected` reduced into the i32 range (and `expected` is outside it): +, - and * commute with that reduction."""
+    try:
+        e, g = int(expected), int(got)
+    except (TypeError, ValueError):
+        return False
+    return not (-2 ** 31 <= e < 2 ** 31) and ((e + 2 ** 31) % 2 ** 32) - 2 ** 31 == g
+
+
 def compare_output(exp_lines, exp_panic, stdout, stderr, rc):
     """Compare observed process behaviour with the reference. Returns None if equal, else a signature string."""
     got = stdout.split("\n")
@@ -1116,11 +1128,15 @@ def compare_output(exp_lines, exp_panic, stdout, stderr, rc):
         g = got[i]
         if isinstance(e, str):
             if g != e:
+                if _is_i32_wrap(e, g):
+                    return I32_WRAP_SIG
                 return "stdout line %d: expected %r got %r" % (i + 1, e, g)
             continue
         kind, val = e
         if kind in ("i", "s"):
             if g != val:
+                if kind == "i" and _is_i32_wrap(val, g):
+                    return I32_WRAP_SIG
                 return "stdout line %d: expected %r got %r" % (i + 1, val, g)
         else:
             try:
